@@ -60,6 +60,12 @@ def step (s : St) (args : List String) : St × String × String :=
   | ["upd", p] =>
       let p := decPath p
       (s, renderCounts (update s.t p none).1, renderCounts (s.regs.update p))
+  | ["updrm", p, c, q] =>
+      -- an update in flight while (c, q) is removed: the removal waits for the delivery, so this is
+      -- `upd p` followed by `rm c q`
+      let p := decPath p; let c := decStr c; let q := decPath q
+      ({ s with t := removeQuery s.t q c, regs := s.regs.remove q c },
+       renderCounts (update s.t p none).1 ++ " mon=ok", renderCounts (s.regs.update p) ++ " mon=ok")
   | "once" :: ps =>
       let ps := ps.map decPath
       (s, renderCounts (updateMany s.t ps (some [])).1, renderCounts (s.regs.once ps))
